@@ -12,7 +12,7 @@
    * Positions and counts that come from the caller are N (WB_ULONG); `len` is a nat.  The model
      assumes len + growth < 2^32 (no wrap in `buffer->len + size`); the only counter that the C
      lets wrap (`end--` in strip_blanks) wraps here too.  create's `len + 1 + malloc_block` is
-     computed mod 2^32 as in the C.
+     computed mod 2^32 as in the C, and refused when it wrapped (d7df267).
    * Allocation never fails here (allocation failure is property C16's subject).
    * Loops over an index use explicit fuel; running out of fuel is a distinct result (`None`),
      never a success.
@@ -82,15 +82,27 @@ Definition insert_data (b : buf) (pos : N) (data : list N) : buf * bool :=
 (* ---------------------------------------------------------------------------------------- *)
 (* creation                                                                                  *)
 
-(* wbxml_buffer_create_real (data, len = |data|, malloc_block) *)
+(* wbxml_buffer_create_real (data, len = |data|, malloc_block).
+   The size of the block, computed in 32 bits as the C does: *)
+Definition create_size (data : list N) (block : N) : N :=
+  let len := N.of_nat (length data) in
+  if (u32 (block + 1) <? u32 (len + 1))%N then u32 (len + 1 + block) else u32 (block + 1).
+
+(* the buffer that is built once the size has been accepted and the blocks granted *)
 Definition create (data : list N) (block : N) : buf :=
   match data with
   | [] => mkbuf [] 0 false false
   | _ =>
-    let len := N.of_nat (length data) in
-    let m := if (u32 (block + 1) <? u32 (len + 1))%N then u32 (len + 1 + block) else u32 (block + 1) in
-    let b0 := mkbuf (repeat junk (N.to_nat m)) (length data) false false in
+    let b0 := mkbuf (repeat junk (N.to_nat (create_size data block))) (length data) false false in
     poke (blit b0 0 data) (length data) 0%N
+  end.
+
+(* d7df267: `if (buffer->malloced <= len) { free; return NULL; }` — a size that wrapped and cannot
+   hold len octets and the terminator is refused (None = NULL) *)
+Definition create_opt (data : list N) (block : N) : option buf :=
+  match data with
+  | [] => Some (create data block)
+  | _ => if (create_size data block <=? N.of_nat (length data))%N then None else Some (create data block)
   end.
 
 (* wbxml_buffer_sta_create_real: the caller's octets, no terminator of ours *)
@@ -98,6 +110,8 @@ Definition sta_create (data : list N) : buf := mkbuf data (length data) true fal
 
 (* wbxml_buffer_duplicate: create_real (get_cstr (b), len, len); get_cstr is "" for len = 0 *)
 Definition duplicate (b : buf) : buf := create (contents b) (N.of_nat (blen b)).
+
+Definition duplicate_opt (b : buf) : option buf := create_opt (contents b) (N.of_nat (blen b)).
 
 Definition len (b : buf) : N := N.of_nat (blen b).
 
@@ -483,9 +497,9 @@ Definition rsearch (b : buf) (x : option (option N)) : buf * ret :=
 
 Definition step (b : buf) (o : op) : buf * ret :=
   match o with
-  | OCreate data block => (create data block, RVoid)
+  | OCreate data block => match create_opt data block with Some b' => (b', RVoid) | None => (b, RNull) end
   | OStaCreate data => (sta_create data, RVoid)
-  | ODuplicate => (duplicate b, RVoid)
+  | ODuplicate => match duplicate_opt b with Some b' => (b', RVoid) | None => (b, RNull) end
   | OLen => (b, RLen (len b))
   | OGetChar pos => (b, RVal (get_char b pos))
   | OSetChar pos ch => rb (set_char b pos ch)
